@@ -76,8 +76,9 @@ type QUICSpec struct {
 // TransportParameterIDs returns the QUIC transport parameter IDs this spec will put on
 // the wire, in the canonical form QUIC fingerprinters use: every GREASE ID (31*N+27) is
 // folded to QTPGrease and the result is sorted ascending. SuppressTransportParameters is
-// applied, so this is what a dial would actually send. It returns nil if the spec has no
-// ClientHelloSpec or no QUICTransportParametersExtension.
+// applied (to a copy: the spec itself is not changed), so this is what a dial would
+// actually send. It returns nil if the spec has no ClientHelloSpec or no
+// QUICTransportParametersExtension.
 //
 // Duplicates are deliberately kept, because they are the whole point: a spec listing both
 // an explicit tls.FakeQUICTransportParameter{Id: 0x1b} and a GREASE parameter emits two
@@ -97,9 +98,17 @@ func (s *QUICSpec) TransportParameterIDs() []uint64 {
 		if !ok {
 			continue
 		}
-		SuppressQUICTransportParameters(qtp, s.SuppressTransportParameters)
-		ids := make([]uint64, 0, len(qtp.TransportParameters))
-		for _, tp := range qtp.TransportParameters {
+		// Work on a copy of the list: this is a query, and the spec must stay as the caller
+		// wrote it. Suppressing in place dropped the listed parameters from the spec for
+		// good, so a later change of SuppressTransportParameters (or clearing it) could not
+		// bring them back and every later dial sent the shortened list. The parameter
+		// objects are shared with the spec, so a GREASE parameter's ID is still pinned.
+		kept := SuppressQUICTransportParameters(
+			&tls.QUICTransportParametersExtension{TransportParameters: slices.Clone(qtp.TransportParameters)},
+			s.SuppressTransportParameters,
+		).TransportParameters
+		ids := make([]uint64, 0, len(kept))
+		for _, tp := range kept {
 			id := tp.ID()
 			if IsGREASEQTPID(id) {
 				id = QTPGrease
